@@ -38,12 +38,14 @@ def standins(tier, seed):
     always = ['a.norm()', 'a.normalized()', '(a.normsq()).sqrt()', '(a.e1 * b)', '(b * a.e21)', '(a.e12 + b)', '(a ** -1)', '(a ** -2)',
               '(a / Q23)', '(a * Q23)', '(Q23 * a)', '((a + b) / Q23)', '(a / -4)', '(a / 2.5)', '(-2 * a)', '(2 - a)', '(Q23 - a)', '(a - Q23)',
               '(0 * a).norm()', '((a - a) * b).norm()']        # norm of a result that is identically zero (F18, fixed: generated 0.5/0)
+    # coefficient access by spellings with an even / odd number of swaps, on an operand that stores every blade
+    spell = ['(b * a.e231)', '(b * a.e312)', '(b * a.e120)', '(b * a.e0231)', '(b * a.e213)', '(b * a.e3210)', '(a.e201 * b + a.e123 * b)']
     if tier == 'quick':
-        cfgs = [dict(p=3, q=0, r=1, exhaustive_depth2=True, sample=60, random=10, always=always), dict(p=2, q=1, exhaustive_depth2=True, sample=60, random=10),
+        cfgs = [dict(p=3, q=0, r=1, exhaustive_depth2=True, sample=60, random=10, always=always, full_operand_forms=spell), dict(p=2, q=1, exhaustive_depth2=True, sample=60, random=10),
                 dict(p=2, exhaustive_depth2=True, sample=40, random=10, nargs=2), dict(p=3, random=25, nargs=3, modes=['numeric']),
                 dict(p=3, q=0, r=1, random=0, single_blades=True, modes=['numeric']), dict(p=3, random=0, single_blades=True, modes=['numeric'])]
     else:
-        cfgs = [dict(p=3, q=0, r=1, exhaustive_depth2=True, random=60, always=always), dict(p=2, q=1, exhaustive_depth2=True, random=60),
+        cfgs = [dict(p=3, q=0, r=1, exhaustive_depth2=True, random=60, always=always, full_operand_forms=spell), dict(p=2, q=1, exhaustive_depth2=True, random=60),
                 dict(p=2, exhaustive_depth2=True, random=40), dict(p=3, random=120, nargs=3, modes=['numeric']),
                 dict(name='2DPGA', exhaustive_depth2=True, sample=400, random=40), dict(p=1, q=1, r=1, exhaustive_depth2=True, sample=400, random=40)]
     return [{'name': f'register#{i}', 'bound': 'expression trees over the README operator table: all depth-2 compositions (sampled in quick) + seeded depth 2-4, 2-3 arguments, seeded key patterns, Fraction values; register(f) and register(symbolic=True)(f) vs f',
